@@ -4,7 +4,7 @@ import BearVerif.Core.Fwd
 
     `(c07 run (BUILTIN…) (HEAPENTRY…) (EVENT…))` → one output per event:
        `silent` | `(crash KIND ARG)` | `(called IMPL SPEC (CACHEENTRY…))`
-    `(c07 parse (TOK…))` / `(c07 show E)` — printer / parser of the source language.
+    `(c07 show E)` → `((TOK…) roundtrip|NO-ROUNDTRIP)` — printer (and parser round trip) of the source language.
 
     BUILTIN = `(NAME ID)`; HEAPENTRY = `(ID (NAME H)…)`;
     E = `(n NAME)` `(a E NAME)` `(s E (E…))` `(o A B)` `(l LIT)` `(q E)`;
@@ -109,8 +109,33 @@ def runOut (s : St) : List Ev → List Sexp
     let (s', o) := step s ev
     outStr s' o :: runOut s' evs
 
+partial def tokStr : Tok → Sexp
+  | .id n => .list [.atom "id", .atom n]
+  | .lit l => .list [.atom "lit", litStr l]
+  | .dot => .atom "dot"
+  | .lbr => .atom "lbr"
+  | .rbr => .atom "rbr"
+  | .comma => .atom "comma"
+  | .bar => .atom "bar"
+  | .lpar => .atom "lpar"
+  | .rpar => .atom "rpar"
+  | .str ts => .list [.atom "str", .list (ts.map tokStr)]
+
+partial def tokCount : List Tok → Nat
+  | [] => 0
+  | .str ts :: r => 1 + tokCount ts + tokCount r
+  | _ :: r => 1 + tokCount r
+
 def handle (args : List Sexp) : Option Sexp := do
   match args with
+  | [.atom "show", e] =>
+    -- the printed tokens, and whether the model's own parser reads them back as `e` (by C07_show_parse it does)
+    let e ← exprOf e
+    let ts := showE e
+    let back := match pExpr (6 * tokCount ts + 6) ts with
+      | some (e', []) => (exprStr e').toStr == (exprStr e).toStr
+      | _ => false
+    pure (.list [.list (ts.map tokStr), .atom (if back then "roundtrip" else "NO-ROUNDTRIP")])
   | [.atom "run", .list bi, .list hp, .list evs] =>
     let builtins ← scopeOf bi
     let heap ← hp.mapM fun
